@@ -76,6 +76,7 @@ type Finding struct {
 type abortRun struct{}
 
 type Run struct {
+	maxT   int // thread limit (length of every vector clock)
 	w      *Worker
 	eng    *Engine
 	tt     *TermTable
